@@ -66,6 +66,7 @@ def havoc_loop_state(I, st_body, frame, spec):
             lt = TY.list_theory(TY.smt_sort(I.path.yielded.extra['elem']))
             I.path.yielded = SV('slist', z3.Const(I.path.fresh_name('out'), lt.sort), extra=I.path.yielded.extra)
         for g in spec.havoc_ghost:
+            I._frames_for_ghost = [frame]
             I.registry.havoc_ghost(I, g)
 
 
